@@ -33,8 +33,8 @@ impl Scenario for C14 {
             rule: "run = one secured channel (policy x {Sign, SignAndEncrypt}, RSA 2048) and a seeded interleaving of: Write request secured under the client's current token; renew-begin (send the OpenSecureChannel renew request, hold the response); renew-end (apply the held response); request secured under a token / keys the server never issued. Up to two renewals and six requests around them. Oracle: a request secured under the token that was current at the server when it was secured, or the immediately previous one while the server has not yet received anything under the newer token, takes effect (the variable changes); a request under a never-issued token never takes effect. non-trivial = a request was sent between renew-begin and renew-end, or a forged token was used; distinct = op/outcome hash.",
             real: vec!["server TcpTransport tasks", "SecureChannelService::open_secure_channel (issue and renew)", "SecureChannel (server side) verify_and_remove_security / apply_security", "MessageHandler / AttributeService::write"],
             stubbed: vec!["TCP socket", "client (raw scripted peer built from the real SecureChannel / Chunker)"],
-            assumptions: vec!["client-side half (real client receiving new-token responses before it applied the renew response) is not covered by this scenario"],
-            fault_kinds: vec!["request_in_flight_across_renew", "forged_token", "double_renew"],
+            assumptions: vec!["RSA 2048 only", "client half: every third run; the scripted server never sends old-token messages after its OpenSecureChannel response (TCP preserves order)"],
+            fault_kinds: vec!["request_in_flight_across_renew", "forged_token", "double_renew", "client_renewal", "response_under_new_token_right_after_renewal"],
         }
     }
     fn runs(&self, tier: Tier) -> u64 {
